@@ -1,9 +1,116 @@
 import Gzx.Util
+import Gzx.Ref.QR
+import Gzx.Model.QRVersionChoice
 namespace Gzx.Driver.C07
-open Gzx
+open Gzx Gzx.QRRef
+
+def showMatrix (m : List (List Bool)) : String := "/".intercalate (m.map showBits)
+
+def parseMatrix (s : String) : List (List Bool) := (s.splitOn "/").map parseBits
+
+def showPen (m : List (List Bool)) : String :=
+  s!"{penalty1 m},{penalty2 m},{penalty3 m},{penalty4 m}"
+
+def showGroups (gs : List (Nat × Nat)) : String :=
+  "+".intercalate (gs.map (fun g => s!"{g.1}*{g.2}"))
+
+def showVersion (v : Nat) : String :=
+  let vi := versionInfo v
+  s!"total={vi.total};align={showNatList vi.align};" ++
+    ";".intercalate ((EC.all.zip vi.ecBlocks).map (fun (ec, b) => s!"{ec.name}={b.1}:{showGroups b.2}"))
+
+/-- nearest codeword within Hamming distance 3, as the index into `words` -/
+def nearest (w : Nat) (width : Nat) (words : List Nat) : Option Nat :=
+  (List.range words.length).find? (fun i => hamming width w (words.getD i 0) ≤ 3)
+
+def formatWords : List Nat := (List.range 32).map formatWordOfData
+def versionWords : List Nat := (List.range 34).map (fun i => versionWord (i + 7))
+
+def showFormat (d : Nat) : String := s!"{(EC.all.find? (fun e => e.bits == d / 8)).map EC.name |>.getD "?"} {d % 8}"
+
+def handleEnc (args : List String) : String :=
+  match (argOf args "ec").bind EC.ofName?, (argOf args "text").bind parseHex? with
+  | some ec, some text =>
+    let sjis := (argOf args "sjis").bind parseHex?
+    let data := ((argOf args "data").bind parseHex?).getD text
+    let m := QRVersionChoice.chooseMode text sjis
+    let bytes := match m with
+      | .kanji => sjis.getD []
+      | .byte => data
+      | _ => text
+    let eci := if m == .byte then argNat args "eci" else none
+    let cfg : Config := { ec := ec, eci := eci, gs1 := (argOf args "gs1") == some "1",
+                          version := (argInt args "ver").map Int.toNat, mask := argNat args "mask" }
+    match refEncode m bytes cfg with
+    | some s =>
+      -- the standard leaves ties between equally good masks open: when the library chose another
+      -- mask (`gomask`) whose penalty equals the minimum, judge its symbol with that mask
+      let s := match cfg.mask, argNat args "gomask" with
+        | none, some g =>
+          if g != s.mask && g < 8 then
+            let alt := refMatrix s.version ec g s.codewords
+            if penalty alt == penalty s.matrix then { s with mask := g, matrix := alt } else s
+          else s
+        | _, _ => s
+      s!"ok {m.name} v={s.version} mask={s.mask} {showMatrix s.matrix}"
+    | none => "ERR:writer"
+  | _, _ => "bad-op"
 
 /-- line-protocol handler of suite `c07` (arguments after the suite name) -/
 def handle : List String → String
+  | ["bm", v, ec, mask, hex] =>
+    match parseNat? v, EC.ofName? ec, parseNat? mask, parseHex? hex with
+    | some v, some ec, some mask, some cw => showMatrix (refMatrix v ec mask cw)
+    | _, _, _, _ => "bad-op"
+  | ["bmp", v, ec, mask, hex] =>
+    match parseNat? v, EC.ofName? ec, parseNat? mask, parseHex? hex with
+    | some v, some ec, some mask, some cw =>
+      let m := refMatrix v ec mask cw
+      showMatrix m ++ " " ++ showPen m
+    | _, _, _, _ => "bad-op"
+  | ["spec", v, ec, mask, hex] =>   -- the quadratic functional specification (small versions only)
+    match parseNat? v, EC.ofName? ec, parseNat? mask, parseHex? hex with
+    | some v, some ec, some mask, some cw => showMatrix (specMatrix v ec mask cw)
+    | _, _, _, _ => "bad-op"
+  | ["pen", rows] => showPen (parseMatrix rows)
+  | ["cw", v, ec, hex] =>           -- data codewords -> final codeword sequence
+    match parseNat? v, EC.ofName? ec, parseHex? hex with
+    | some v, some ec, some d => showHex (finalCodewords v ec d)
+    | _, _, _ => "bad-op"
+  | "enc" :: args => handleEnc args
+  | ["ver", v] =>
+    match parseNat? v with
+    | some v => showVersion v
+    | none => "bad-op"
+  | ["fw", d] => match parseNat? d with
+    | some d => toString (formatWordOfData d)
+    | none => "bad-op"
+  | ["vw", v] => match parseNat? v with
+    | some v => toString (versionWord v)
+    | none => "bad-op"
+  | ["fdec", w] =>
+    match parseNat? w with
+    | some w =>
+      match nearest w 15 formatWords with
+      | some d => showFormat d
+      | none => match nearest (w ^^^ formatMask) 15 formatWords with
+        | some d => showFormat d
+        | none => "none"
+    | none => "bad-op"
+  | ["vdec", w] =>
+    match parseNat? w with
+    | some w => match nearest w 18 versionWords with
+      | some i => toString (i + 7)
+      | none => "none"
+    | none => "bad-op"
+  | ["maskgrid", k, n] =>           -- rows y = 0..n-1 of mask condition k
+    match parseNat? k, parseNat? n with
+    | some k, some n => showMatrix ((List.range n).map (fun y => (List.range n).map (fun x => maskBit k x y)))
+    | _, _ => "bad-op"
+  | ["mask", k, x, y] =>
+    match parseNat? k, parseNat? x, parseNat? y with
+    | some k, some x, some y => if maskBit k x y then "1" else "0"
+    | _, _, _ => "bad-op"
   | _ => "bad-op"
 
 end Gzx.Driver.C07
